@@ -737,6 +737,35 @@ def run(ctx):
     ctx.counters["destructors"] = len(dt)
     ctx.floor("destructors", 1, "Stats destructor")
 
+    # ------------------------------------------------ the wake-up client gives up
+    # 'Shutting the service down always completes': ~Stats wakes its accept thread through a StatsClient request and then joins, so the
+    # request has to end in bounded time also when nobody answers - every step of StatsClient::msgSocket is made once, under the 2 s
+    # socket timeouts, and a failure is returned.  A step repeated while it fails (connect retried on EAGAIN: a full listen backlog that
+    # nothing drains any more never clears) keeps the destructor in the client for ever.
+    for q in ("Oomd::StatsClient::msgSocket",):
+        f = ctx.use(ctx.fn1(q))
+        steps = f.calls("connect", "socket", "setsockopt", "Util::writeFull", "send")
+        ctx.count("client_request_steps", len(steps))
+        inl = {}
+        for l in loops(f):
+            for nd in body_nodes(f, l):
+                for w in f.walk(nd):
+                    inl.setdefault(w, l)
+        for i in steps:
+            l = inl.get(i)
+            ctx.check(l is None, "client-request-makes-one-attempt:%s@%d" % (f.nodes[i].get("cname"), f.nodes[i].get("line", 0)), "no_cycle (call site)", f.loc(i),
+                      "the step is made once", "StatsClient::msgSocket makes %s inside a loop (%s): a step that keeps failing - connect with EAGAIN on a listen "
+                      "backlog nobody drains during shutdown - is repeated without bound, and ~Stats, which sends its wake-up request through this client "
+                      "before joining the accept thread, never returns" % (f.text(i)[:60], f.loc(l["stmt"]) if l and l.get("stmt") is not None else "loop"))
+        for l in loops(f):
+            st = l.get("stmt")
+            c = f.nodes[st].get("c") if st is not None else None
+            ct = f.text(c) if c is not None else ""
+            ctx.check("errno" not in ct and "__errno_location" not in ct, "client-request-makes-one-attempt:loop@%d" % (f.nodes[st].get("line", 0) if st is not None else 0),
+                      "loop condition", f.loc(st) if st is not None else f.loc(), "no loop of the request continues on an error code",
+                      "StatsClient::msgSocket loops while %s: the request repeats a failing step instead of returning the failure, without bound" % ct[:100])
+    ctx.floor("client_request_steps", 4, "socket/setsockopt/connect/write steps in StatsClient::msgSocket")
+
     # ------------------------------------------------ service threads cannot die of an exception
     for t_usr, creator, node in cg.thread_roots:
         if "Stats::" not in creator.pq:
